@@ -697,6 +697,16 @@ def run(ctx):
         subs = g.symbol_map(f)
         for ms in (False, True):
             cases.append((Case(f, dict(subs), {}, ms, env_ms, "symbols"), "sa"))
+    # directed: a replacement that is the negation of another key, below a negation (finding F50)
+    for i in range(6 if quick else 40):
+        g = gens[False]
+        m = g.mgr
+        a, xk, yk = rng.sample(g.uni.syms[BOOL], 3)
+        ctxf = g.fg_small.gen(BOOL, 2)
+        f = m.And(m.Not(a), ctxf) if rng.random() < 0.6 else m.Or(ctxf, m.Iff(m.Not(a), xk))
+        subs = {a: m.Not(xk), xk: rng.choice([yk, m.Not(yk), g.value_for(BOOL)])}
+        for ms in (False, True):
+            cases.append((Case(f, dict(subs), {}, ms, False, "symbols+negated-key"), "sa"))
     for i in range(n_si):
         env_ms = rng.random() < 0.2
         g = gens[env_ms]
@@ -723,7 +733,8 @@ def run(ctx):
         out = run_impl(env, c)
         rec = {"case": c, "tag": tag, "line": line, "out": out}
         records.append(rec)
-        ctx.count("kind_" + c.kind)
+        for kd in (c.kind.split("+") if c.kind else ["plain"]):
+            ctx.count("kind_" + kd)
         ctx.count("class_" + ("ms" if c.ms else "mg") + ("_envms" if c.env_ms else ""))
         rd = {"formula": semantic.readable(c.f), "class": "MSSubstituter" if c.ms else "MGSubstituter",
               "env_default": "MSSubstituter" if c.env_ms else "MGSubstituter",
@@ -733,6 +744,7 @@ def run(ctx):
               "request": line,
               "impl": semantic.readable(out[1]) if out[0] == "ok" else out[1] + " :: " + repr(out[2])[:200]}
         rec["rd"] = rd
+        ctx.count("outcome_" + ("ok" if out[0] == "ok" else " ".join(out[1].split()[:2])))
         nontriv = line if (out[0] == "err" or out[1] is not c.f) else None
         ctx.case(nontriv)
         if out[0] == "ok" and out[1] is not c.f:
